@@ -181,8 +181,9 @@ def run_counter_part(chk, args):
 
 def journal_configs(quick):
     if quick:
-        return [("Scripts_quick.cfg", 1000), ("Layouts_quick.cfg", 10000), ("Keys.cfg", 90), ("Layouts_large.cfg", 20)]
-    return [("Scripts_thorough.cfg", 30000), ("Layouts_thorough.cfg", 30000), ("Layouts_wide.cfg", 10000), ("Layouts_medium.cfg", 1000),
+        # Faults_quick = Scripts_quick plus up to two failed journal Writes and one failed Sync per behaviour
+        return [("Faults_quick.cfg", 5000), ("Layouts_quick.cfg", 10000), ("FaultLayouts_quick.cfg", 3000), ("Keys.cfg", 90), ("Layouts_large.cfg", 20)]
+    return [("Scripts_thorough.cfg", 30000), ("Faults_thorough.cfg", 50000), ("FaultLayouts_thorough.cfg", 40000), ("Layouts_thorough.cfg", 30000), ("Layouts_wide.cfg", 10000), ("Layouts_medium.cfg", 1000),
             ("Layouts_large.cfg", 20), ("Layouts_dense.cfg", 3), ("Keys.cfg", 90), ("Keys_medium.cfg", 10)]
 
 
@@ -194,6 +195,13 @@ def run_journal_part(chk, args):
     q = chk.tier == "quick"
     drv = _Bg(_journal_driver)
     total = 0
+    # teeth: the variant that stamps lastWriteTime although the journal Write failed must break StampCoversContent
+    r = vlib.tlc(JOU, "Journal", "Stamp_before_write.cfg", workers=1, timeout=900, keep_prints=False)
+    chk.add_tlc(r)
+    if r.error != "invariant:StampCoversContent":
+        chk.fail("spec/Journal Stamp_before_write.cfg: the stamp-before-write variant was expected to violate StampCoversContent, got %s" % r.error)
+        return
+    faulty = 0
     for cfg, least in journal_configs(q):
         # one TLC run both model-checks the writer machine on every script of the
         # configuration (invariants) and prints the cases (Emit needs one worker)
@@ -206,6 +214,7 @@ def run_journal_part(chk, args):
         if len(cases) < least:
             chk.fail("vacuous: %s produced only %d cases" % (cfg, len(cases)))
             return
+        faulty += sum(1 for c in cases if c.get("fails"))
         inside = [c for c in cases if c["kind"] == "window" and 0 < c["expect"]["included"] < len(c["chunks"])]
         if inside:
             chk.sample(inside[len(inside) // 2])
@@ -214,14 +223,18 @@ def run_journal_part(chk, args):
         chk.note("TLC Journal %s: %d states, %d cases (%.0fs); driver: %d evaluations on %d writer scripts" % (
             cfg, r.distinct, len(cases), r.wall, s.get("cases", 0), s.get("plans", 0)))
     chk.cov["c19_journal_cases"] = total
+    chk.cov["c19_journal_cases_with_write_fault"] = faulty
+    if faulty < 1000:
+        chk.fail("vacuous: only %d journal cases contain a failed write" % faulty)
+        return
     chk.cov["rule"] += (" | journal: cases are behaviours of spec/Journal (a writer script, then a window): every script up to the configured "
-                        "length over AddIP/Wait/Flush, and structured layouts of <= 3 chunks with contents over 2-3 address blocks x every "
+                        "length over AddIP/Wait/Flush with up to two failed journal Writes and one failed Sync placed at every write attempt, and structured layouts of <= 3 chunks with contents over 2-3 address blocks x every "
                         "before/equal/after placement of both window ends at every chunk boundary; each script runs on the real ClusterWriter "
                         "under the fake clock (1 ns ticks and a coarser unit) and its chunk boundaries must equal the model's; non-trivial = "
                         "the window contains at least one chunk; masking-key cases all count")
     chk.assumptions += ["journal: fake clock of testing/synctest (go1.26.8, asynctimerchan=0); a block of addresses is added at one instant",
                         "journal: 'exactly for small sets' is demanded up to 100 addresses on address pools the driver has first shown to be collision-free in the sketch (all of them in one chunk are counted exactly; about one pool in 20 000 is not); beyond that |estimate - exact| <= max(1, 2 %)",
-                        "journal: write errors, partial lines and malformed journals are not modelled"]
+                        "journal: a failing Write writes nothing and fails for a whole script step (every address of a block meets it); torn lines and malformed journals are not modelled; Dump/Marshal errors cannot be injected"]
 
 
 # --------------------------------------------------------------------------
